@@ -93,11 +93,18 @@ Definition pmodel : P (endian * model) :=
   let* un := popt (plist punloaded) in
   let* mi := popt (plist (pints 9)) in
   let* mc := popt pmisc in
+  let* bp := popt (pints 3) in
+  let* asr := popt (pints 386) in
+  let* ti := popt (plist (pints 10)) in
+  let* r1 := popt pblob in let* r2 := popt pblob in let* r3 := popt pblob in
+  let* r4 := popt pblob in let* r5 := popt pblob in let* r6 := popt pblob in
   pret (if en =? 0 then LE else BE,
         {| m_version := ver; m_checksum := ck; m_time := tm; m_flags := fl; m_extra_dir := extra;
            m_pad_lists := negb (pad =? 0);
            m_sysinfo := si; m_threads := th; m_modules := md; m_memory := me; m_memory64 := m64;
-           m_exception := ex; m_tnames := tn; m_unloaded := un; m_meminfo := mi; m_misc := mc |}).
+           m_exception := ex; m_tnames := tn; m_unloaded := un; m_meminfo := mi; m_misc := mc;
+           m_breakpad := bp; m_assertion := asr; m_thread_info := ti;
+           m_lx_cpuinfo := r1; m_lx_status := r2; m_lx_lsb := r3; m_lx_environ := r4; m_lx_maps := r5; m_lx_limits := r6 |}).
 
 Definition run_encode (toks : list Z) : option (list Z) :=
   match pmodel toks with
@@ -179,30 +186,19 @@ Fixpoint lflat (L : layout) (v : value) {struct L} : list Z :=
          end) n v
   end.
 
-Definition ctx_layout (arch : Z) : option (layout * (Z * nat)) :=
-  if (arch =? PROCESSOR_ARCHITECTURE_INTEL) || (arch =? PROCESSOR_ARCHITECTURE_IA32_ON_WIN64)
-  then Some (L_CONTEXT_X86, (CF_CONTEXT_X86, 0%nat))
-  else if arch =? PROCESSOR_ARCHITECTURE_AMD64 then Some (L_CONTEXT_AMD64, (CF_CONTEXT_AMD64, 6%nat))
-  else if arch =? PROCESSOR_ARCHITECTURE_ARM then Some (L_CONTEXT_ARM, (CF_CONTEXT_ARM, 0%nat))
-  else if arch =? PROCESSOR_ARCHITECTURE_ARM64 then Some (L_CONTEXT_ARM64, (CF_CONTEXT_ARM64, 0%nat))
-  else None.
-
-(* [-3]: no system info; [-2]: architecture not modelled; [-1]: no context; 1 :: fields *)
+(* [-3]: no system info; [-2]: architecture without a context layout; [-1]: no context; 1 :: fields *)
 Definition context_obs (e : endian) (sys : sres msysinfo) (ctx : option (list Z)) : list Z :=
   match sys with
   | SOk s =>
-      match ctx_layout (si_arch s) with
+      match ctx_spec (si_arch s) with
       | None => [-2]
-      | Some (L, (cf, idx)) =>
+      | Some (L, _) =>
           match ctx with
           | None => [-1]
-          | Some bytes =>
-              match dec e L bytes with
-              | None => [-1]
-              | Some (v, _) =>
-                  let fl := lflat L v in
-                  if Z.land (Z.land (nth idx fl 0) CONTEXT_CPU_MASK) CF_ALL_BITS =? cf then 1 :: fl else [-1]
-              end
+          | Some bytes => match read_context e (si_arch s) bytes with
+                          | Some v => 1 :: lflat L v
+                          | None => [-1]
+                          end
           end
       end
   | _ => [-3]
@@ -225,6 +221,41 @@ Fixpoint insert_name (n : Z * list Z) (l : list (Z * list Z)) : list (Z * list Z
               else x :: insert_name n t
   end.
 Definition names_map (l : list (Z * list Z)) : list (Z * list Z) := fold_left (fun acc n => insert_name n acc) l [].
+
+
+(* ---- Linux key/value text (linux_list_iter): lines split on LF, split at the first separator,
+   both sides trimmed of ASCII whitespace and of one pair of surrounding double quotes *)
+Fixpoint split_on_aux (sep : Z) (l cur : list Z) : list (list Z) :=
+  match l with
+  | [] => [rev cur]
+  | c :: t => if c =? sep then rev cur :: split_on_aux sep t [] else split_on_aux sep t (c :: cur)
+  end.
+Definition split_on (sep : Z) (l : list Z) : list (list Z) := split_on_aux sep l [].
+Definition is_ws (c : Z) : bool := (c =? 32) || (c =? 9) || (c =? 10) || (c =? 12) || (c =? 13).
+Fixpoint trim_left (l : list Z) : list Z :=
+  match l with c :: t => if is_ws c then trim_left t else l | [] => [] end.
+Definition trim (l : list Z) : list Z := rev (trim_left (rev (trim_left l))).
+Definition strip_quotes (l : list Z) : list Z :=
+  let t := trim l in
+  match t with
+  | 34 :: r => match rev r with 34 :: r' => rev r' | _ => t end
+  | _ => t
+  end.
+Fixpoint split_once (sep : Z) (l pre : list Z) : option (list Z * list Z) :=
+  match l with
+  | [] => None
+  | c :: t => if c =? sep then Some (rev pre, t) else split_once sep t (c :: pre)
+  end.
+Definition kv_items (sep : Z) (b : list Z) : list (list Z) :=
+  flat_map (fun line => match split_once sep line [] with
+                        | Some (k, v) => [str (strip_quotes k) ++ str (strip_quotes v)]
+                        | None => []
+                        end) (split_on 10 b).
+Fixpoint until_zero (l : list Z) : list Z :=
+  match l with [] => [] | c :: t => if c =? 0 then [] else c :: until_zero t end.
+(* utf16_to_string: units up to the first NUL, None when they are not valid UTF-16 *)
+Definition zstr16 (l : list Z) : list Z :=
+  let u := until_zero l in if valid_utf16 u then str u else [-1].
 
 Definition run_observe (bytes : list Z) : option (list (Z * list (list Z))) :=
   match decode_dump bytes with
@@ -249,5 +280,19 @@ Definition run_observe (bytes : list Z) : option (list (Z * list (list Z))) :=
              sec (v_unloaded v) (map (fun u => [um_base u; um_size u; um_checksum u; um_time u] ++ str (um_name u)
                                                ++ str (time_size_id (um_time u) (um_size u))));
              sec (v_meminfo v) (fun l => l);
-             sec (v_misc v) (fun m => [fst m :: snd m]) ]
+             sec (v_misc v) (fun m => [fst m :: snd m]);
+             (* the raw struct is private in the reader: only the two validity-gated ids are observable *)
+             sec (v_breakpad v) (fun l => [match l with
+                                           | [val; d; r] => [if Z.testbit val 0 then d else -1; if Z.testbit val 1 then r else -1]
+                                           | _ => []
+                                           end]);
+             sec (v_assertion v) (fun l => [l ++ zstr16 (firstn 128 l) ++ zstr16 (firstn 128 (skipn 128 l))
+                                              ++ zstr16 (firstn 128 (skipn 256 l))]);
+             sec (v_thread_info v) (fun l => l);
+             sec (v_lx_cpuinfo v) (fun b => str b :: kv_items 58 b);
+             sec (v_lx_status v) (fun b => str b :: kv_items 58 b);
+             sec (v_lx_lsb v) (fun b => str b :: kv_items 61 b);
+             sec (v_lx_environ v) (fun b => str b :: kv_items 61 b);
+             sec (v_lx_maps v) (fun b => [str b]);
+             sec (v_lx_limits v) (fun b => [str b]) ]
   end.
